@@ -179,28 +179,34 @@ CONV_POOL_SRC = [
 ]
 
 
-def conv_trace(fn, value, base=10):
-    """What the conversions do for a real value: list of (call, outcome class name | 'ok')."""
-    tr = []
-
-    def attempt(name, f):
+def conv_outcomes(value, calls, base=10):
+    """Outcome of each named conversion on a real value: 'ok' or the exception class name."""
+    ops = {"int(value)": (lambda: int(value, base)) if isinstance(value, str) else (lambda: int(value)),
+           "float(value)": lambda: float(value), "int(float)": lambda: int(float(value))}
+    out = []
+    for name in calls:
         try:
-            r = f()
-            tr.append((name, "ok"))
-            return True, r
+            ops[name]()
+            out.append((name, "ok"))
         except (TypeError, ValueError, OverflowError) as ex:
-            tr.append((name, type(ex).__name__))
-            return False, None
+            out.append((name, type(ex).__name__))
+    return out
 
+
+def spec_conv(fn, value, default, base=10):
+    """documented result: the converted value (for int also through float: "42.23"|int gives 42), else the default"""
+    try:
+        if fn == "float":
+            return float(value)
+        return int(value, base) if isinstance(value, str) else int(value)
+    except (TypeError, ValueError, OverflowError):
+        pass
     if fn == "int":
-        ok, r = attempt("int(value)", (lambda: int(value, base)) if isinstance(value, str) else (lambda: int(value)))
-        if not ok:
-            ok2, f = attempt("float(value)", lambda: float(value))
-            if ok2:
-                attempt("int(float)", lambda: int(f))
-    else:
-        attempt("float(value)", lambda: float(value))
-    return tr
+        try:
+            return int(float(value))
+        except (TypeError, ValueError, OverflowError):
+            pass
+    return default
 
 
 class Conv(VC):
@@ -287,7 +293,7 @@ class Conv(VC):
             v = eval(src)
             if isinstance(v, str) != self.is_str:
                 continue
-            if conv_trace(self.which, v) == want:
+            if conv_outcomes(v, [n for n, _ in want]) == want:
                 return {"filter": self.which, "value_src": src, "trace": want}
         return None
 
@@ -311,10 +317,9 @@ def replay_conv(w):
         r = fn(v, default)
     except Exception as ex:  # noqa
         return (True, f"{w['value_src']}|{w['filter']} raised {type(ex).__name__}: {ex}")
-    tr = conv_trace(w["filter"], v)
-    if tr and tr[-1][1] != "ok":
-        return (r is not default, f"{w['value_src']}|{w['filter']} -> {r!r}, conversions {tr}")
-    return (r is default, f"{w['value_src']}|{w['filter']} -> {r!r}")
+    want = spec_conv(w["filter"], v, default)
+    bad = (r is not default) if want is default else (r is default or r != want)
+    return (bad, f"{w['value_src']}|{w['filter']} -> {'default' if r is default else repr(r)}")
 
 
 # =====================================================================================
@@ -600,6 +605,357 @@ def replay_wrappers(w):
     return (False, "wrappers agree with the str methods on the sample")
 
 
+# =====================================================================================
+# bounded stand-ins: the real filters against executable specifications
+# =====================================================================================
+
+def strings(alpha, maxlen):
+    for n in range(maxlen + 1):
+        for t in itertools.product(alpha, repeat=n):
+            yield "".join(t)
+
+
+def seeded(alpha, seed, count=300, lo=6, hi=40):
+    import random
+    rnd = random.Random(1000 + int(seed))
+    for _ in range(count):
+        yield "".join(rnd.choice(alpha) for _ in range(rnd.randint(lo, hi)))
+
+
+class Bounded(FnTask):
+    """Exhaustive run of a real filter over a finite input set against a spec function.
+    cases(tier, seed) yields json witnesses; check(w) -> (violated, detail) runs the REAL code."""
+    kind = "bounded"
+
+    def __init__(self, name, cases, check, bound_text, classify=None, prop="C23"):
+        self.prop, self.name, self.kind = prop, name, "bounded"
+        self.cases, self.check, self.bound_text, self.classify = cases, check, bound_text, classify
+        self.replay_fn = None
+
+    def run(self, tier, seed):
+        t0 = time.time()
+        n, bad, seen = 0, [], set()
+        for w in self.cases(tier, seed):
+            n += 1
+            try:
+                v, d = self.check(w)
+            except Exception as ex:  # the spec itself must not crash
+                return [Res(self.name + ".spec", "error", "native", time.time() - t0, f"spec crashed on {w!r}: {ex!r}", "bounded")]
+            if v:
+                k = self.key_of(w)
+                if k not in seen and len(seen) < 6:
+                    seen.add(k)
+                    bad.append(Res(self.name, "refuted", "native", time.time() - t0, d, "bounded", w))
+        self.stats = {"inputs": n}
+        if bad:
+            return bad
+        return [Res(self.name, "bounded-ok", "native", time.time() - t0, f"{n} inputs agree with the specification ({self.bound_text})", "bounded")]
+
+    def key_of(self, w):
+        if self.classify is not None:
+            k = self.classify(w)
+            if k:
+                return k
+        return json.dumps(w, sort_keys=True, ensure_ascii=True)
+
+    def finding_key(self, res):
+        return self.key_of(res.witness) if res.witness is not None else None
+
+    def replay(self, w):
+        return self.check(w)
+
+
+# ---- indent ------------------------------------------------------------------------------
+# line boundaries of str.splitlines (Python library reference), written out independently
+LINE_BREAK = re.compile("\r\n|[\n\r\x0b\x0c\x1c\x1d\x1e\x85  ]")
+INDENT_ALPHA = ["a", " ", "\n", "<", "\r", "\t", " "]
+
+
+def spec_indent_ok(s, width, first, blank, r):
+    """only the indentation is inserted: the result has the lines of s (line breaks normalised to \n);
+    lines after the first are indented iff non-empty or `blank`; the first iff `first`."""
+    ind = width if isinstance(width, str) else " " * width
+    lines = LINE_BREAK.split(s)
+    out = r.split("\n")
+    if len(out) != len(lines):
+        return False
+    for i, (l, o) in enumerate(zip(lines, out)):
+        if i == 0:
+            want = [l] if not first else ([ind + l] if (l or blank) else [l, ind + l])
+        else:
+            want = [ind + l] if (l or blank) else [l]
+        if o not in want:
+            return False
+    return True
+
+
+def cases_indent(tier, seed):
+    srcs = itertools.chain(strings(INDENT_ALPHA, 5), seeded(INDENT_ALPHA + ["b", "\r\n", "\n\n"], seed, 200))
+    for s in srcs:
+        for width in (0, 2, ">>"):
+            for first in (False, True):
+                for blank in (False, True):
+                    yield {"s": s, "width": width, "first": first, "blank": blank}
+
+
+def check_indent(w):
+    r = F.do_indent(w["s"], w["width"], w["first"], w["blank"])
+    ok = type(r) is str and spec_indent_ok(w["s"], w["width"], w["first"], w["blank"], r)
+    return (not ok, f"do_indent({w['s']!r}, {w['width']!r}, first={w['first']}, blank={w['blank']}) = {r!r}")
+
+
+def classify_indent(w):
+    # one class of inputs: the text ends in a lone carriage return and exactly that final line break is lost
+    s = w["s"]
+    if s.endswith("\r"):
+        r = F.do_indent(s, w["width"], w["first"], w["blank"])
+        if spec_indent_ok(s[:-1], w["width"], w["first"], w["blank"], r):
+            return "trailing-carriage-return-dropped"
+    return None
+
+
+# ---- wordwrap ----------------------------------------------------------------------------
+_WS = re.compile(r"\s+")
+WRAP_ALPHA = ["a", "b", " ", "\n", "<", "-", "\t"]
+
+
+def cases_wordwrap(tier, seed):
+    for s in strings(WRAP_ALPHA, 5):
+        for width in (1, 2, 3):
+            for blw in (True, False):
+                for boh in (True, False):
+                    yield {"s": s, "width": width, "break_long_words": blw, "break_on_hyphens": boh, "wrapstring": None}
+    for s in seeded(WRAP_ALPHA + ["c", "d", "e", " ", " "], seed, 150, 10, 80):
+        for width in (1, 4, 9, 20):
+            for blw in (True, False):
+                for ws in (None, "|\n"):
+                    yield {"s": s, "width": width, "break_long_words": blw, "break_on_hyphens": True, "wrapstring": ws}
+
+
+def check_wordwrap(w):
+    env = jinja2.Environment()
+    s = w["s"]
+    r = F.do_wordwrap(env, s, w["width"], w["break_long_words"], w["wrapstring"], w["break_on_hyphens"])
+    sep = w["wrapstring"] or "\n"
+    lines = r.split(sep)
+    text = "".join(lines)
+    ok = _WS.sub("", text) == _WS.sub("", s)  # all non-whitespace text, in order, nothing added
+    if w["break_long_words"]:
+        ok = ok and all(len(l) <= w["width"] for l in lines)
+    return (not ok, f"do_wordwrap({s!r}, width={w['width']}, break_long_words={w['break_long_words']}, "
+                    f"wrapstring={w['wrapstring']!r}, break_on_hyphens={w['break_on_hyphens']}) = {r!r}")
+
+
+# ---- title / wordcount -------------------------------------------------------------------
+TITLE_ALPHA = ["a", "B", " ", "\n", "<", "-", "ß"]
+
+
+def spec_title(s):
+    """every character that starts a word (start of text, or after whitespace or one of - ( { [ <) is upper-cased,
+    every other character lower-cased"""
+    return "".join(c.upper() if (i == 0 or s[i - 1].isspace() or s[i - 1] in "-({[<") else c.lower() for i, c in enumerate(s))
+
+
+def cases_title(tier, seed):
+    for s in itertools.chain(strings(TITLE_ALPHA, 5), seeded(TITLE_ALPHA + ["(", "[", "{", "c", "D", "\t", "é", "1"], seed)):
+        yield {"s": s}
+
+
+def check_title(w):
+    r = F.do_title(w["s"])
+    return (r != spec_title(w["s"]), f"do_title({w['s']!r}) = {r!r}, specification {spec_title(w['s'])!r}")
+
+
+WC_ALPHA = ["a", "1", " ", "\n", "<", "_", "é"]
+
+
+def spec_wordcount(s):
+    isw = lambda c: c.isalnum() or c == "_"  # noqa: E731
+    return sum(1 for i, c in enumerate(s) if isw(c) and (i == 0 or not isw(s[i - 1])))
+
+
+def cases_wordcount(tier, seed):
+    for s in itertools.chain(strings(WC_ALPHA, 5), seeded(WC_ALPHA + ["-", ".", "B", "\t"], seed)):
+        yield {"s": s}
+
+
+def check_wordcount(w):
+    r = F.do_wordcount(w["s"])
+    return (r != spec_wordcount(w["s"]) or type(r) is not int, f"do_wordcount({w['s']!r}) = {r!r}, specification {spec_wordcount(w['s'])}")
+
+
+# ---- striptags ---------------------------------------------------------------------------
+STRIP_ALPHA = ["a", "B", " ", "\n", "<", ">", "&"]
+_TAG = re.compile(r"<!--.*?-->|<[^>]*>", re.S)
+_ENT = {"&lt;": "<", "&gt;": ">", "&amp;": "&", "&quot;": '"', "&#39;": "'", "&#34;": '"'}
+
+
+def spec_striptags(s):
+    """comments and tags removed, runs of whitespace collapsed to one space and trimmed, entities resolved"""
+    t = " ".join(_TAG.sub("", s).split())
+    return re.sub(r"&(?:lt|gt|amp|quot|#39|#34);", lambda m: _ENT[m.group()], t)
+
+
+STRIP_SEEDS = ["<p>Hello <b>World</b></p>", "a<!-- x > y -->b", "  just  a\n small \t example <a href=\"x\">link</a>  ",
+               "&lt;b&gt; &amp; <i\nclass='x'>it</i>", "<br/>x<br />y", "1 < 2", "a > b < c", "<<a>>", "<a<b>c>d", "x<!---->y"]
+
+
+def cases_striptags(tier, seed):
+    for s in itertools.chain(strings(STRIP_ALPHA, 5), STRIP_SEEDS, seeded(STRIP_ALPHA + ["b", "/", "p"], seed)):
+        yield {"s": s, "as": "str"}
+    for s in STRIP_SEEDS + ["<b>x</b>", "a &amp; b"]:
+        yield {"s": s, "as": "markup"}
+        yield {"s": s, "as": "html_object"}
+
+
+class _HasHTML:
+    def __init__(self, s):
+        self.s = s
+
+    def __html__(self):
+        return self.s
+
+    def __str__(self):
+        return "WRONG: str() used instead of __html__()"
+
+
+def check_striptags(w):
+    from markupsafe import Markup
+    s = w["s"]
+    v = s if w["as"] == "str" else (Markup(s) if w["as"] == "markup" else _HasHTML(s))
+    r = F.do_striptags(v)
+    want = spec_striptags(s)
+    return (str(r) != want, f"do_striptags({w['as']} {s!r}) = {r!r}, specification {want!r}")
+
+
+# ---- urlencode ----------------------------------------------------------------------------
+URL_ALPHA = ["a", " ", "\n", "<", "/", "%", "é"]
+_URL_OK = re.compile(r"(?:[A-Za-z0-9_.~/-]|%[0-9A-F]{2})*\Z")
+_QS_OK = re.compile(r"(?:[A-Za-z0-9_.~+-]|%[0-9A-F]{2})*\Z")
+QS_ALPHA = ["a", " ", "&", "=", "+", "/", "é", "%"]
+
+
+def cases_urlencode(tier, seed):
+    for s in itertools.chain(strings(URL_ALPHA, 5), seeded(URL_ALPHA + ["?", "&", "=", "+", "#", "€", "~"], seed)):
+        yield {"kind": "str", "s": s}
+    ks = list(strings(QS_ALPHA, 2))
+    for k in ks:
+        for v in ks:
+            yield {"kind": "dict", "items": [[k, v]]}
+    for k in ks[:20]:
+        yield {"kind": "pairs", "items": [[k, "x y"], ["k&2", k], [k, 7]]}
+        yield {"kind": "dict", "items": [[k + "1", "x y"], ["k&2", k]]}
+    for v in (7, 1.5, None, True):
+        yield {"kind": "scalar", "value": v}
+
+
+def check_urlencode(w):
+    from urllib.parse import unquote, parse_qsl
+    if w["kind"] == "str":
+        r = F.do_urlencode(w["s"])
+        bad = unquote(r) != w["s"] or not _URL_OK.match(r)
+        return (bad, f"do_urlencode({w['s']!r}) = {r!r}")
+    if w["kind"] == "scalar":
+        r = F.do_urlencode(w["value"])
+        return (unquote(r) != str(w["value"]) or not _URL_OK.match(r), f"do_urlencode({w['value']!r}) = {r!r}")
+    items = [tuple(x) for x in w["items"]]
+    arg = dict(items) if w["kind"] == "dict" else items
+    r = F.do_urlencode(arg)
+    want = [(str(k), str(v)) for k, v in (arg.items() if isinstance(arg, dict) else arg)]
+    parts = r.split("&") if r else []
+    bad = len(parts) != len(want)
+    if not bad:
+        for part, (k, v) in zip(parts, want):
+            kv = part.split("=")
+            if len(kv) != 2 or not _QS_OK.match(kv[0]) or not _QS_OK.match(kv[1]):
+                bad = True
+                break
+            if unquote(kv[0].replace("+", " ")) != k or unquote(kv[1].replace("+", " ")) != v:
+                bad = True
+                break
+    if not bad and all(k for k, _ in want):
+        bad = parse_qsl(r, keep_blank_values=True) != want
+    return (bad, f"do_urlencode({arg!r}) = {r!r}")
+
+
+# ---- filesizeformat ---------------------------------------------------------------------------
+FS_DEC = ["kB", "MB", "GB", "TB", "PB", "EB", "ZB", "YB"]
+FS_BIN = ["KiB", "MiB", "GiB", "TiB", "PiB", "EiB", "ZiB", "YiB"]
+
+
+def spec_filesize_ok(value, binary, r):
+    """1 -> '1 Byte'; below the base -> '<n> Bytes'; otherwise the value in the largest unit not exceeding it
+    (capped at the yotta prefix), to one decimal place."""
+    from fractions import Fraction
+    x = Fraction(float(value))
+    base = 1024 if binary else 1000
+    if x == 1:
+        return r == "1 Byte"
+    if x < base:
+        return r == "%d Bytes" % int(x)
+    k = 1
+    while k < 8 and x >= base ** (k + 1):
+        k += 1
+    m = re.fullmatch(r"(\d+\.\d) (\w+)", r)
+    if not m or m.group(2) != (FS_BIN if binary else FS_DEC)[k - 1]:
+        return False
+    q = x / base ** k
+    return abs(Fraction(m.group(1)) - q) <= Fraction(1, 20) + q / 10 ** 12
+
+
+def cases_filesize(tier, seed):
+    vals = set()
+    for base in (1000, 1024):
+        for k in range(0, 10):
+            for d in (-2, -1, 0, 1, 2):
+                vals.add(base ** k + d)
+            for mlt in (2, 5, 999, 1023):
+                vals.add(base ** k * mlt)
+            for mlt in (1.04, 1.06, 1.5, 999.94, 999.96, 1023.9):
+                vals.add(base ** k * mlt)
+    vals |= {0, 1, 2, 0.5, 1.0, 1.5, 999.9, 10 ** 30, 10 ** 40}
+    for v in sorted(v for v in vals if v >= 0):
+        for b in (False, True):
+            yield {"value": v, "binary": b}
+    for v in ("1000", "1e3", "1", "1023.9", True):
+        for b in (False, True):
+            yield {"value": v, "binary": b}
+
+
+def check_filesize(w):
+    r = F.do_filesizeformat(w["value"], w["binary"])
+    return (not spec_filesize_ok(w["value"], w["binary"], r), f"do_filesizeformat({w['value']!r}, binary={w['binary']}) = {r!r}")
+
+
+# ---- round / wrappers (native) ---------------------------------------------------------------------
+def cases_round(tier, seed):
+    for k in range(-40, 41):
+        for p in (0, 1, 2):
+            for m in ("common", "ceil", "floor"):
+                yield {"value": k / 8, "precision": p, "method": m}
+    for m in ("Common", "trunc", "", "fabs", "ceil ", "__doc__", "pi", "round"):
+        yield {"value": 2.5, "precision": 0, "method": m}
+
+
+def cases_wrappers(tier, seed):
+    yield {}
+
+
+BOUNDED = [
+    Bounded("C23.bounded.indent", cases_indent, check_indent,
+            "all strings of length <= 5 over {a, space, \\n, <, \\r, \\t, U+2028} x width in {0, 2, '>>'} x first x blank, plus 200 seeded strings of length 6..40",
+            classify_indent),
+    Bounded("C23.bounded.wordwrap", cases_wordwrap, check_wordwrap,
+            "all strings of length <= 5 over {a, b, space, \\n, <, -, \\t} x width 1..3 x break_long_words x break_on_hyphens, plus 150 seeded strings of length 10..80 x width in {1,4,9,20} x two wrap strings"),
+    Bounded("C23.bounded.title", cases_title, check_title, "all strings of length <= 5 over {a, B, space, \\n, <, -, ß} plus 300 seeded strings"),
+    Bounded("C23.bounded.wordcount", cases_wordcount, check_wordcount, "all strings of length <= 5 over {a, 1, space, \\n, <, _, é} plus 300 seeded strings"),
+    Bounded("C23.bounded.striptags", cases_striptags, check_striptags, "all strings of length <= 5 over {a, B, space, \\n, <, >, &} plus seeded and hand-picked tag/comment/entity cases, as str, Markup and __html__ object"),
+    Bounded("C23.bounded.urlencode", cases_urlencode, check_urlencode, "all strings of length <= 5 over {a, space, \\n, <, /, %, é} (round trip through urllib.parse.unquote, output alphabet), all key/value pairs of length <= 2 over {a, space, &, =, +, /, é, %} as query strings"),
+    Bounded("C23.bounded.filesizeformat", cases_filesize, check_filesize, "base**k + {-2..2} and multiples around every unit boundary for k <= 9, decimal and binary, ints, floats, numeric strings"),
+    Bounded("C23.bounded.round", cases_round, lambda w: replay_round(w), "k/8 for |k| <= 40 x precision 0..2 x the three methods (float arithmetic exact), 8 undocumented method names"),
+    Bounded("C23.bounded.wrappers", cases_wrappers, lambda w: replay_wrappers(w), "13 sample values x argument samples for upper/lower/capitalize/center/trim/replace/format against the str methods"),
+]
+
 WRAPPERS = [Wrapper("upper", "upper", 0), Wrapper("lower", "lower", 0), Wrapper("capitalize", "capitalize", 0),
             Wrapper("center", "center", 1), Wrapper("trim", "strip", 1), Wrapper("trim", "strip", 0, "default"),
             Wrapper("replace", "replace", 3, "count"), Wrapper("replace", "replace", 2, "all"),
@@ -607,12 +963,22 @@ WRAPPERS = [Wrapper("upper", "upper", 0), Wrapper("lower", "lower", 0), Wrapper(
             Wrapper("format", "__mod__", 1, "both"), Wrapper("format", "__mod__", 0, "none")]
 
 TASKS = [Truncate(False), Truncate(True), Round(), *WRAPPERS,
-
-         Conv("int", False), Conv("int", True), Conv("float", False), Conv("float", True)]
+         Conv("int", False), Conv("int", True), Conv("float", False), Conv("float", True), *BOUNDED]
 
 META = {
     "level": "proof",
-    "explanation": "",
-    "assumptions": [],
-    "trusted_base": ["z3 5.1 / cvc5", "pyvc symbolic executor"],
+    "explanation": "Proved on the real bodies: do_truncate against the documented length contract (string VC, both leeway sources); "
+                   "do_int/do_float totality over dependency specs of int()/float() that may raise TypeError, ValueError or OverflowError "
+                   "(fails for OverflowError on the unchanged tree = DESIGN F17, listed as known findings); do_round validates the method "
+                   "before it selects a function of `math` and computes the documented expression; upper/lower/capitalize/center/trim/"
+                   "replace(no autoescape)/format are exactly one str operation on soft_str(value) with the caller's arguments. "
+                   "The deciding step for indent, wordwrap, title, wordcount, filesizeformat, striptags, urlencode (regex / textwrap / "
+                   "float formatting) is a bounded check with the stated bound against executable specifications.",
+    "assumptions": ["A4 dependency specs of builtins (int, float, round, math.ceil/floor, str methods, soft_str) as stated in the module",
+                    "truncate: requires length >= len(end) and leeway >= 0 (the function asserts both)",
+                    "values handed to int/float are strings, numbers, booleans, None or containers (no user classes with raising __int__/__float__)"],
+    "trusted_base": ["z3 5.1 / cvc5", "pyvc symbolic executor",
+                     "dependency spec: int(x) raises only TypeError/ValueError/OverflowError, int(str, base) only TypeError/ValueError, float(x) only TypeError/ValueError/OverflowError (ValueError for str)",
+                     "dependency spec: str.rsplit(sep, 1) splits at the last separator", "dependency spec: str slicing / concatenation / length (SMT string theory)",
+                     "executable specifications of the bounded stand-ins (this module)", "urllib.parse.unquote / parse_qsl, fractions, re (oracles of the stand-ins)"],
 }
